@@ -382,6 +382,20 @@ func runC07(r *Rand, tier string, o *Out) {
 		}
 	}
 
+	// values nested thousands of levels deep — a value in a value in a value …, one-item lists of values in one another —
+	// that end in nothing: refused, at a cost in proportion to the input
+	for _, depth := range []int{2500, 6000} {
+		var data, l []byte
+		for d := 0; d < depth; d++ {
+			data = append(append(data, le(1)...), 'm')
+		}
+		for d := 0; d < depth*2/3; d++ {
+			l = append(append(append(l, le(3)...), "[m]"...), le(1)...)
+		}
+		add("val", data, "deeply-nested-values-cut")
+		add("val", l, "deeply-nested-values-cut")
+	}
+
 	rounds := 10
 	if tier == "thorough" {
 		rounds = 250
